@@ -246,8 +246,26 @@ def persist_shapes_history(rng):
 
 OPTS["C17"]["templates"] = [persist_shapes_history]
 OPTS["C17"]["ntemplates"] = 6
+def retamper_history(rng):
+    """a product is overwritten by hand, the build repairs it, and it is overwritten with the SAME content again"""
+    def tk(i, deps, prods):
+        return {"id": i, "module": 1, "deps": deps, "prods": prods, "mver": 0, "skip": False, "skipifs": [], "persist": False, "prio": 0,
+                "marks": [], "attrs": [], "after_fn": [], "after_expr": None, "use_decorator": False}
+    ts = [tk(1, [101], [111]), tk(2, [111], [112]), tk(3, [112, 101], [113])]
+    rng.shuffle(ts)
+    cfg = {"force": False, "dry_run": False, "max_failures": None, "expression": "", "marker_expression": "", "capture": "no"}
+    victim = rng.choice([111, 112, 113])
+    c = rng.randint(500, 600)
+    b = {"op": "build", "tasks": ts, "cfg": cfg, "faults": {}}
+    return {"ops": [{"op": "set", "n": 101, "c": rng.randint(1, 50)}, b, {"op": "set", "n": victim, "c": c}, dict(b),
+                    {"op": "set", "n": victim, "c": c}, dict(b), dict(b)], "sources": [101]}
+
+
 for k in ("C02", "C03", "C04"):
     OPTS[k]["templates"] = [outofstep_history]
+for k in ("C02", "C03"):
+    OPTS[k]["templates"] = OPTS[k]["templates"] + [retamper_history]
+    OPTS[k]["ntemplates"] = 6
 for k in ("C04", "C01", "C08"):
     OPTS[k]["templates"] = OPTS[k].get("templates", []) + [mem_history]
 
